@@ -321,6 +321,7 @@ inductive Action where
   | wrap                                      -- `[node]`
   | setField (i : Nat) (t : Nat)              -- `node._replace(field_i = t)`
   | equalCopy                                 -- a distinct but equal object without metadata
+  | child (i : Nat)                           -- the node's own field `i` (an object of the tree, a list or a leaf)
 
 def decodeAction : Sexp → Option Action
   | .atom "same" => some .same
@@ -330,6 +331,7 @@ def decodeAction : Sexp → Option Action
   | .atom "wrap" => some .wrap
   | .list [.atom "set", i, t] => do pure (.setField (← i.nat?) (← t.nat?))
   | .atom "equalcopy" => some .equalCopy
+  | .list [.atom "child", i] => i.nat?.map .child
   | _ => none
 
 def mkCb (rules : List (Nat × Action)) : Cb := fun v =>
@@ -345,6 +347,7 @@ def mkCb (rules : List (Nat × Action)) : Cb := fun v =>
       | .wrap => some (.list [v])
       | .setField i k => some (.obj c t (fs.set i (.leaf k)) pm)
       | .equalCopy => some (.obj c t fs none)
+      | .child i => fs[i]?
   | _ => none
 
 end Sourcer
